@@ -2,6 +2,10 @@
    M <hex>      validateMediaType
    T <hex>      the created validation of pack.go (validateRFC3339) accepts
    L <hex>      time.Parse(time.RFC3339, _) alone succeeds (the lenient recogniser)
+   F y mo d h mi s   time.Date(..., UTC).Format(time.RFC3339) of a valid civil time (INVALID otherwise)
+   A <ann>      json.Marshal of a map[string]string and the pairs read back from it, in document order
+   S <hex>      digest.FromBytes(..).String() (sha256)
+   J <hex>      json.Marshal of a string (escaping)      B <hex>   base64.StdEncoding of bytes
    U <hex>      a string after json.Marshal / Unmarshal (invalid UTF-8 coerced)
    K <fn> <exists> <key 0=full 1=digest 2=namespace 3=file> <failat|-> <at> <subject> <layers> <ann> <config> <config_ann> <store>
    Descriptors  D:<mt>:<dg>:<size>:<ann>:<at>:<extra>   (hex fields, "-" = empty)
@@ -30,16 +34,41 @@ let show_ann l =
     let ps = List.sort compare ps in
     String.concat ";" (List.map (fun (k, v) -> k ^ "=" ^ v) ps)
 
+(* extra = urls~data~platform ; "_" = absent; urls hex joined by "."; platform arch.os.osver.features.variant,
+   features "_" or hex joined by "+" *)
+let extra_of (s : string) : dextra =
+  match split '~' s with
+  | [u; d; p] ->
+    { x_urls = (if u = "_" then [] else List.map str_of_hex (split '.' u));
+      x_data = (if d = "_" then [] else str_of_hex d);
+      x_platform = (if p = "_" then None else
+        match split '.' p with
+        | [a; o; v; f; r] ->
+          Some { p_arch = str_of_hex a; p_os = str_of_hex o; p_osver = str_of_hex v;
+                 p_osfeat = (if f = "_" then [] else List.map str_of_hex (split '+' f)); p_variant = str_of_hex r }
+        | _ -> failwith "platform") }
+  | _ -> failwith ("extra " ^ s)
+
+let show_extra (x : dextra) =
+  let u = match x.x_urls with [] -> "_" | l -> String.concat "." (List.map hex_of_str l) in
+  let d = match x.x_data with [] -> "_" | l -> hex_of_str l in
+  let p = match x.x_platform with
+    | None -> "_"
+    | Some p -> String.concat "." [hex_of_str p.p_arch; hex_of_str p.p_os; hex_of_str p.p_osver;
+                                   (match p.p_osfeat with [] -> "_" | l -> String.concat "+" (List.map hex_of_str l));
+                                   hex_of_str p.p_variant] in
+  u ^ "~" ^ d ^ "~" ^ p
+
 let desc_of (s : string) : desc =
   match split ':' s with
   | ["D"; mt; dg; sz; ann; at; ex] ->
     { d_mt = str_of_hex mt; d_dg = str_of_hex dg; d_sz = z_of_int (int_of_string sz);
-      d_ann = ann_of ann; d_at = str_of_hex at; d_extra = str_of_hex ex }
+      d_ann = ann_of ann; d_at = str_of_hex at; d_extra = extra_of ex }
   | _ -> failwith ("desc " ^ s)
 
 let show_desc (d : desc) =
   Printf.sprintf "D:%s:%s:%d:%s:%s:%s" (hex_of_str d.d_mt) (hex_of_str d.d_dg) (int_of_z d.d_sz)
-    (show_ann d.d_ann) (hex_of_str d.d_at) (hex_of_str d.d_extra)
+    (show_ann d.d_ann) (hex_of_str d.d_at) (show_extra d.d_extra)
 
 let odesc_of s = if s = "N" then None else Some (desc_of s)
 let show_odesc o = match o with None -> "N" | Some d -> show_desc d
@@ -86,9 +115,9 @@ let fn_of s =
   | "v10" -> FV10 | "v11" -> FV11 | "vbad" -> FBadVersion | "rc2" -> FRC2 | "art" -> FArtifact
   | _ -> failwith "fn"
 
-(* json.Marshal and the digest are parameters of the model; the runner's
-   observables do not depend on them except for the digest of "{}" *)
-let dummy_marshal (_ : manifest) : n list = []
+(* json.Marshal is the executable model json_manifest (Model/PackEnc.v): the bytes are an observable.
+   The digest stays a parameter; the runner's observables do not depend on it except for "{}" *)
+let dummy_marshal (m : manifest) : n list = json_manifest m
 let dummy_h (s : n list) : n list = if s = empty_json then empty_json_digest else [n_of_int 63]
 let now_placeholder = List.map (fun c -> n_of_int (Char.code c)) ['<'; 'N'; 'O'; 'W'; '>']
 
@@ -96,27 +125,49 @@ let () =
   iter_lines (fun l ->
     match split_ws l with
     | [id; "M"; h] -> Printf.printf "%s %s\n" id (if valid_media_type (str_of_hex h) then "1" else "0")
+    | [id; "F"; y; mo; d; h; mi; s] ->
+      let n x = n_of_int (int_of_string x) in
+      if civil_ok (n y) (n mo) (n d) (n h) (n mi) (n s)
+      then Printf.printf "%s %s\n" id (hex_of_str (format_rfc3339_utc (n y) (n mo) (n d) (n h) (n mi) (n s)))
+      else Printf.printf "%s INVALID\n" id
+    | [id; "A"; a] ->
+      let l = ann_of a in
+      let bytes = json_ann l in
+      let back = match read_obj bytes with
+        | Some (ps, []) -> (match ps with [] -> "-" | _ ->
+            String.concat ";" (List.map (fun (k, v) -> hex_of_str k ^ "=" ^ hex_of_str v) ps))
+        | _ -> "UNREADABLE" in
+      Printf.printf "%s %s %s\n" id (hex_of_str bytes) back
+    | [id; "S"; h] -> Printf.printf "%s %s\n" id (hex_of_str (digest_of (str_of_hex h)))
+    | [id; "J"; h] -> Printf.printf "%s %s\n" id (hex_of_str (json_string (str_of_hex h)))
+    | [id; "B"; h] -> Printf.printf "%s %s\n" id (hex_of_str (base64 (str_of_hex h)))
     | [id; "L"; h] -> Printf.printf "%s %s\n" id (if rfc3339_ok_prefix (str_of_hex h) then "1" else "0")
     | [id; "U"; h] -> Printf.printf "%s %s\n" id (hex_of_str (utf8_san (str_of_hex h)))
     | [id; "T"; h] -> Printf.printf "%s %s\n" id (if rfc3339_ok (str_of_hex h) then "1" else "0")
     | [id; "K"; f; ex; bd; fa; at; subj; layers; ann; cfg; cann; store; _spec] ->
       let tc = { t_exists = (ex = "1");
                  t_key = (match bd with "0" -> KFull | "1" -> KDigest | "2" -> KNamespace | "3" -> KFile | _ -> failwith "key") } in
+      (* a trailing "d" on the fault token: run with the modelled SHA-256 and show the digest *)
+      let with_digest = String.length fa > 0 && fa.[String.length fa - 1] = 'd' in
+      let fa = if with_digest then String.sub fa 0 (String.length fa - 1) else fa in
+      let h = if with_digest then digest_of else dummy_h in
       let fa = if fa = "-" then None else Some (nat_of_int (int_of_string fa)) in
       let o = { o_subject = odesc_of subj; o_layers = list_of layers; o_ann = ann_of ann;
                 o_config = odesc_of cfg; o_config_ann = ann_of cann } in
-      let (s', r) = pack dummy_marshal dummy_h (fn_of f) tc fa (init_state (store_of store))
+      let (s', r) = pack dummy_marshal h (fn_of f) tc fa (init_state (store_of store))
           (str_of_hex at) o now_placeholder in
       (match r with
        | Err e -> Printf.printf "%s ERR %s EV %s\n" id (show_err e) (show_events s'.s_events)
        | Ok (d, m) ->
          (* the document is shown as it can be read back from the stored bytes (json.Marshal
             coerces strings to valid UTF-8); descriptor and events are what Pack handed out *)
+         let bytes = json_manifest m in
          let m = san_manifest m in
-         Printf.printf "%s OK %s:%s:%s kind=%s cfg=%s layers=%s subj=%s at=%s ann=%s EV %s\n" id
+         Printf.printf "%s OK %s:%s:%s kind=%s cfg=%s layers=%s subj=%s at=%s ann=%s EV %s SIZE %d BYTES %s DIGEST %s\n" id
            (hex_of_str d.d_mt) (hex_of_str d.d_at) (show_ann d.d_ann)
            (match m.m_kind with KImage -> "I" | KArtifact -> "A")
            (show_odesc m.m_config) (show_list m.m_layers) (show_odesc m.m_subject)
-           (hex_of_str m.m_at) (show_ann m.m_ann) (show_events s'.s_events))
+           (hex_of_str m.m_at) (show_ann m.m_ann) (show_events s'.s_events) (int_of_z d.d_sz) (hex_of_str bytes)
+           (if with_digest then hex_of_str d.d_dg else "-"))
     | [] -> ()
     | _ -> Printf.printf "BADLINE %s\n" l)
